@@ -16,7 +16,9 @@ cleanup() { [ -n "${KEEP_SCRATCH:-}" ] && return;  git -C /repo worktree remove 
 trap cleanup EXIT
 git -C /repo worktree add -q --detach "$S/repo" HEAD || exit 2
 if [ "$PATCH" != none ]; then
-	git -C "$S/repo" apply "$PATCH" || { echo "patch does not apply: $PATCH"; exit 2; }
+	# (a patch taken against an older HEAD: fall back to a three-way application; the blobs it names are in /repo)
+	git -C "$S/repo" apply "$PATCH" 2>/dev/null || git -C "$S/repo" apply -3 "$PATCH" >/dev/null 2>&1 || { echo "patch does not apply: $PATCH"; exit 2; }
+	git -C "$S/repo" reset -q 2>/dev/null
 fi
 mkdir -p "$S/verif"
 rsync -a --exclude .git --exclude .build --exclude evidence --exclude replays --exclude seeded /verif/ "$S/verif/"
